@@ -1,9 +1,11 @@
 import LzmaVerif.Model.SyncOps
 /-
-Protocol model of the multi-threaded readers (`src/lzma2_reader_mt.rs`, `src/lzip/reader_mt.rs`;
-the writers have the same shape with "compress" for "decompress"): one coordinator thread inside the
-caller's `read`, up to `maxWorkers` worker threads, the shared work queue, the mpsc result channel,
-the shared error store + shutdown flag.
+Protocol model of the multi-threaded readers (`src/lzma2_reader_mt.rs`, `src/lzip/reader_mt.rs`): one
+coordinator thread inside the caller's `read`, up to `maxWorkers` worker threads, the shared work queue,
+the mpsc result channel, the shared error store + shutdown flag.  The WORKER half, the queue, the channel
+and the error store have the same shape in the two MT writers ("compress" for "decompress"); the writers'
+COORDINATOR does not follow `coordStep` (found by the trace validation, see `Model/MTTraceW.lean`).
+Real executions of the readers are replayed through this LTS on every check (`Model/MTTrace.lean`).
 
 Abstractions (stated in DESIGN.md): a unit's payload is identified with its sequence number; what a
 worker computes from unit `i` is `cfg.units[i]` (ok / fail / panic); queue operations are atomic
